@@ -5,7 +5,9 @@ A *history* is a list of `Op`s: queue a message, script the outcome of a future 
 `recv()`, `Irc.die()`, one pass of `drivers.run()`.  All theorems below quantify over every
 history from the initial connected state (`runOps env init ops`), i.e. over every message list,
 every schedule of short writes / EAGAINs / socket errors and every fragmentation of the input —
-and over every `env` (what `strptime` accepts, what the Irc queues in reaction to a message).
+and over every `env`: what `strptime` accepts, and what the Irc object queues in reaction to a
+message *given everything it was fed before* (any deterministic Irc), provided no exception
+escapes its `feedMsg` / `takeMsg` (`NoEscape env`; C07 derives that from the firewall).
 -/
 import LimnoriaModel.C11.Lemmas
 namespace C11
@@ -14,27 +16,29 @@ open Py
 /-- the environment of the correspondence run (any time tag accepted, PING→PONG stub) -/
 def stubEnv : Env := { timeOk := fun _ => true, react := pingPong }
 
+theorem stubEnv_noEscape : NoEscape stubEnv := ⟨fun _ _ => rfl, fun _ => rfl⟩
+
 /-! ## write side -/
 
 /-- **The bytes accepted by the socket, followed by what is still buffered, are exactly the UTF-8
 encoding of the messages handed to the driver so far, in order** — after every history. -/
-theorem write_exact (env : Env) (ops : List Op) :
+theorem write_exact (env : Env) (hne : NoEscape env) (ops : List Op) :
     (runOps env init ops).wire ++ (runOps env init ops).outbuffer
       = utf8 (runOps env init ops).taken.flatten :=
-  (inv_runOps env ops init (inv_init env)).wire
+  (inv_runOps hne ops init (inv_init env)).wire
 
 /-- nothing queued is lost or duplicated between the Irc queue and the driver -/
-theorem queue_conserved (env : Env) (ops : List Op) :
+theorem queue_conserved (env : Env) (hne : NoEscape env) (ops : List Op) :
     (runOps env init ops).taken ++ (runOps env init ops).queue = (runOps env init ops).queued :=
-  (inv_runOps env ops init (inv_init env)).queue
+  (inv_runOps hne ops init (inv_init env)).queue
 
 /-- **On drain the socket has received exactly the encodings of all queued messages, in order,
 each once** — whatever the partial sends were. -/
-theorem write_exact_drained (env : Env) (ops : List Op)
+theorem write_exact_drained (env : Env) (hne : NoEscape env) (ops : List Op)
     (hq : (runOps env init ops).queue = []) (hb : (runOps env init ops).outbuffer = []) :
     (runOps env init ops).wire = ((runOps env init ops).queued.map utf8).flatten := by
-  have h1 := write_exact env ops
-  have h2 := queue_conserved env ops
+  have h1 := write_exact env hne ops
+  have h2 := queue_conserved env hne ops
   rw [hb, List.append_nil] at h1
   rw [hq, List.append_nil] at h2
   rw [h1, h2, utf8_flatten]
@@ -50,34 +54,37 @@ example : (runOps stubEnv init exHistory).queue = [] ∧ (runOps stubEnv init ex
 /-- **EAGAIN bursts are tolerated**: starting with a fresh counter, up to 121 consecutive
 `send()` calls failing with EAGAIN leave the driver connected, nothing written, nothing lost,
 the counter equal to the burst length (a later successful `send` resets it, `sendIfMsgs_sent`). -/
-theorem eagain_tolerated (k : Nat) (hk : k ≤ 121) (w : World) (rs : List SendRes)
-    (hc : w.connected = true) (hz : w.zombie = false) (hi : w.ircZombie = false)
+theorem eagain_tolerated (env : Env) (hne : NoEscape env) (k : Nat) (hk : k ≤ 121) (w : World)
+    (rs : List SendRes)
+    (hc : w.connected = true) (hz : w.zombie = false) (hi : w.ircZombie = false) (hcr : w.crashed = none)
     (hob : w.outbuffer ≠ []) (he : w.eagains = 0)
     (hs : w.sendScript = List.replicate k (.error 11) ++ rs) :
-    (sendN k w).connected = true ∧ (sendN k w).wire = w.wire ∧
-    (sendN k w).outbuffer ++ utf8 (sendN k w).queue.flatten = w.outbuffer ++ utf8 w.queue.flatten ∧
-    (sendN k w).eagains = k ∧ (sendN k w).sendScript = rs := by
-  have := sendN_eagain_burst k w rs hc hz hi hob (by omega) hs
+    (sendN env k w).connected = true ∧ (sendN env k w).wire = w.wire ∧
+    (sendN env k w).outbuffer ++ utf8 (sendN env k w).queue.flatten = w.outbuffer ++ utf8 w.queue.flatten ∧
+    (sendN env k w).eagains = k ∧ (sendN env k w).sendScript = rs := by
+  have := sendN_eagain_burst hne k w rs hc hz hi hcr hob (by omega) hs
   simpa [he] using this
 
 /-- … and the 122nd consecutive EAGAIN disconnects (the bound in the code is `eagains > 120`). -/
-theorem eagain_limit (w : World) (rs : List SendRes)
-    (hc : w.connected = true) (hz : w.zombie = false) (hi : w.ircZombie = false)
+theorem eagain_limit (env : Env) (hne : NoEscape env) (w : World) (rs : List SendRes)
+    (hc : w.connected = true) (hz : w.zombie = false) (hi : w.ircZombie = false) (hcr : w.crashed = none)
     (hob : w.outbuffer ≠ []) (he : w.eagains > 120) (hs : w.sendScript = .error 11 :: rs) :
-    (sendIfMsgs w).connected = false ∧ (sendIfMsgs w).wire = w.wire :=
-  sendIfMsgs_eagain_limit w rs hc hz hi hob he hs
+    (sendIfMsgs env w).connected = false ∧ (sendIfMsgs env w).wire = w.wire :=
+  sendIfMsgs_eagain_limit hne w rs hc hz hi hcr hob he hs
 
-example : ∃ w : World, w.connected = true ∧ w.zombie = false ∧ w.ircZombie = false ∧ w.outbuffer ≠ [] ∧
-    w.eagains = 0 ∧ w.sendScript = List.replicate 121 (.error 11) ++ [.sent 1] :=
-  ⟨{ outbuffer := [65], sendScript := List.replicate 121 (.error 11) ++ [.sent 1] }, rfl, rfl, rfl, by simp, rfl, rfl⟩
+example : ∃ w : World, w.connected = true ∧ w.zombie = false ∧ w.ircZombie = false ∧ w.crashed = none ∧
+    w.outbuffer ≠ [] ∧ w.eagains = 0 ∧ w.sendScript = List.replicate 121 (.error 11) ++ [.sent 1] :=
+  ⟨{ outbuffer := [65], sendScript := List.replicate 121 (.error 11) ++ [.sent 1] }, rfl, rfl, rfl, rfl,
+    by simp, rfl, rfl⟩
 
 /-- **Progress**: when every `send()` accepts at least one byte, `len + 1` calls of
 `_sendIfMsgs` empty the queue and the out-buffer (so `write_exact_drained` applies). -/
-theorem drains (k : Nat) (w : World)
-    (hc : w.connected = true) (hz : w.zombie = false) (hi : w.ircZombie = false)
+theorem drains (env : Env) (hne : NoEscape env) (k : Nat) (w : World)
+    (hc : w.connected = true) (hz : w.zombie = false) (hi : w.ircZombie = false) (hcr : w.crashed = none)
     (hp : Positive w.sendScript) (hk : (w.outbuffer ++ utf8 w.queue.flatten).length ≤ k) :
-    (sendN (k + 1) w).outbuffer = [] ∧ (sendN (k + 1) w).queue = [] ∧ (sendN (k + 1) w).connected = true :=
-  sendN_drains k w hc hz hi hp hk
+    (sendN env (k + 1) w).outbuffer = [] ∧ (sendN env (k + 1) w).queue = [] ∧
+    (sendN env (k + 1) w).connected = true :=
+  sendN_drains hne k w hc hz hi hcr hp hk
 
 example : Positive [.sent 1, .sent 3, .sent 1] := by
   intro r hr
@@ -92,44 +99,44 @@ example : Positive [.sent 1, .sent 3, .sent 1] := by
 /-- **What has been delivered to `feedMsg` is a function of the concatenation of all bytes
 received, and the in-buffer is the unterminated tail of that concatenation** — after every
 history, hence independently of how `recv()` chunked the stream. -/
-theorem read_is_function_of_stream (env : Env) (ops : List Op) :
+theorem read_is_function_of_stream (env : Env) (hne : NoEscape env) (ops : List Op) :
     (runOps env init ops).fed = msgsOf env (splitLF (runOps env init ops).rx).1 ∧
     (runOps env init ops).inbuffer = (splitLF (runOps env init ops).rx).2 :=
-  ⟨(inv_runOps env ops init (inv_init env)).fed, (inv_runOps env ops init (inv_init env)).inbuf⟩
+  ⟨(inv_runOps hne ops init (inv_init env)).fed, (inv_runOps hne ops init (inv_init env)).inbuf⟩
 
 /-- **Chunk independence**: two partitions of the same byte stream into non-empty `recv()` results,
 each followed by a pass of the driver loop, deliver the same messages and leave the same
 in-buffer — including partitions that cut inside a multi-byte character or between CR and LF. -/
-theorem read_chunk_independent (env : Env) (cs₁ cs₂ : List Bytes)
+theorem read_chunk_independent (env : Env) (hne : NoEscape env) (cs₁ cs₂ : List Bytes)
     (h₁ : ∀ c ∈ cs₁, c ≠ []) (h₂ : ∀ c ∈ cs₂, c ≠ []) (h : cs₁.flatten = cs₂.flatten) :
     (runOps env init (chunkOps cs₁)).fed = (runOps env init (chunkOps cs₂)).fed ∧
     (runOps env init (chunkOps cs₁)).inbuffer = (runOps env init (chunkOps cs₂)).inbuffer := by
-  obtain ⟨_, _, x1⟩ := calm_chunkOps env cs₁ h₁ init calm_init rfl
-  obtain ⟨_, _, x2⟩ := calm_chunkOps env cs₂ h₂ init calm_init rfl
-  obtain ⟨f1, b1⟩ := read_is_function_of_stream env (chunkOps cs₁)
-  obtain ⟨f2, b2⟩ := read_is_function_of_stream env (chunkOps cs₂)
+  obtain ⟨_, _, x1⟩ := calm_chunkOps hne cs₁ h₁ init calm_init rfl
+  obtain ⟨_, _, x2⟩ := calm_chunkOps hne cs₂ h₂ init calm_init rfl
+  obtain ⟨f1, b1⟩ := read_is_function_of_stream env hne (chunkOps cs₁)
+  obtain ⟨f2, b2⟩ := read_is_function_of_stream env hne (chunkOps cs₂)
   have hx : (runOps env init (chunkOps cs₁)).rx = (runOps env init (chunkOps cs₂)).rx := by
     rw [x1, x2, h]
   rw [f1, f2, b1, b2, hx]
   exact ⟨rfl, rfl⟩
 
 /-- … and what is delivered is the message sequence of the complete lines of the whole stream. -/
-theorem read_delivers_lines (env : Env) (cs : List Bytes) (h : ∀ c ∈ cs, c ≠ []) :
+theorem read_delivers_lines (env : Env) (hne : NoEscape env) (cs : List Bytes) (h : ∀ c ∈ cs, c ≠ []) :
     (runOps env init (chunkOps cs)).fed = msgsOf env (splitLF cs.flatten).1 ∧
     (runOps env init (chunkOps cs)).inbuffer = (splitLF cs.flatten).2 := by
-  obtain ⟨_, _, x⟩ := calm_chunkOps env cs h init calm_init rfl
-  obtain ⟨f, b⟩ := read_is_function_of_stream env (chunkOps cs)
+  obtain ⟨_, _, x⟩ := calm_chunkOps hne cs h init calm_init rfl
+  obtain ⟨f, b⟩ := read_is_function_of_stream env hne (chunkOps cs)
   have hx : (runOps env init (chunkOps cs)).rx = cs.flatten := by rw [x]; rfl
   rw [f, b, hx]
   exact ⟨rfl, rfl⟩
 
 /-- the same at the level of `_read` bodies, from any state whose in-buffer holds no LF -/
-theorem read_chunks_from_any_state (env : Env) (w : World) (hw : LF ∉ w.inbuffer)
+theorem read_chunks_from_any_state (env : Env) (hne : NoEscape env) (w : World) (hw : LF ∉ w.inbuffer)
     (cs₁ cs₂ : List Bytes) (h : cs₁.flatten = cs₂.flatten) :
     (feedChunks env w cs₁).fed = (feedChunks env w cs₂).fed ∧
     (feedChunks env w cs₁).inbuffer = (feedChunks env w cs₂).inbuffer := by
-  obtain ⟨a1, a2⟩ := feedChunks_spec env cs₁ w hw
-  obtain ⟨b1, b2⟩ := feedChunks_spec env cs₂ w hw
+  obtain ⟨a1, a2⟩ := feedChunks_spec hne cs₁ w hw
+  obtain ⟨b1, b2⟩ := feedChunks_spec hne cs₂ w hw
   rw [a1, a2, b1, b2, h]
   exact ⟨rfl, rfl⟩
 
@@ -144,14 +151,15 @@ theorem framing_exact (b : Bytes) :
 -- "é" cut in the middle and CR | LF cut: three chunkings of `PING :é\r\nPI`
 example : (runOps stubEnv init (chunkOps [[80,73,78,71,32,58,195], [169,13], [10,80,73]])).fed
     = (runOps stubEnv init (chunkOps [[80,73,78,71,32,58,195,169,13,10,80,73]])).fed := by
-  apply (read_chunk_independent stubEnv _ _ _ _ _).1 <;> simp
+  apply (read_chunk_independent stubEnv stubEnv_noEscape _ _ _ _ _).1 <;> simp
 
 /-! ## exception flow -/
 
 /-- **No history makes an exception escape `SocketDriver.run()`** (no server line, however
 malformed or badly encoded, and no socket outcome): `drivers.run` never sees the driver raise. -/
-theorem never_crashes (env : Env) (ops : List Op) : (runOps env init ops).crashed = none :=
-  (inv_runOps env ops init (inv_init env)).nocrash
+theorem never_crashes (env : Env) (hne : NoEscape env) (ops : List Op) :
+    (runOps env init ops).crashed = none :=
+  (inv_runOps hne ops init (inv_init env)).nocrash
 
 /-! ## shutdown flush (known finding C11-zombie-flush)
 
@@ -167,9 +175,10 @@ buffer is never written and the socket never closed. -/
 
 /-- what holds: if no `send()` outcome is ever scripted — every `send()` accepts the whole
 buffer — the out-buffer is empty after every history (in particular when the driver is removed). -/
-theorem flushed_when_removed_partial (env : Env) (ops : List Op) (h : scriptsNoSend ops) :
+theorem flushed_when_removed_partial (env : Env) (hne : NoEscape env) (ops : List Op)
+    (h : scriptsNoSend ops) :
     (runOps env init ops).outbuffer = [] :=
-  (flushed_runOps env ops init ⟨rfl, rfl⟩ h).buffer
+  (flushed_runOps hne ops init ⟨rfl, rfl⟩ h).buffer
 
 example : scriptsNoSend [Op.queue "QUIT :bye\r\n".toList, Op.ircDie, Op.loop] := by
   intro op h r; simp at h; rcases h with rfl | rfl | rfl <;> simp
